@@ -1,6 +1,7 @@
 import NmVerif.Linalg
 import NmVerif.Lemmas.Addressing
 namespace NmVerif
+open NmVerif.MB
 open Linalg
 
 @[simp] theorem getNeg?_append_one (b : List Nat) (x : Nat) : getNeg? (b ++ [x]) 1 = some x := by
